@@ -14,7 +14,7 @@ from vlib import driver as e1_driver
 from vlib import env
 
 PID = "C09"
-BOUNDARY = [63, 64, 65, 66, 70, 127, 128, 129, 130]
+BOUNDARY = [63, 64, 65, 66, 127, 128, 129]
 CLANG_FLAGS = ["-std=c++20", "-O1", "-fno-vectorize", "-fno-slp-vectorize",
                "-fno-unroll-loops", "-fno-exceptions", "-S", "-emit-llvm"]
 
